@@ -97,6 +97,11 @@ for _pid in ("C03", "C06", "C09", "C11", "C13"):
 PROPS["C19"]["theorem_modules"] = PROPS["C19"]["theorem_modules"] + ["DecProofs.Properties.C19GenDpd"]
 PROPS["C18"]["theorem_modules"] = PROPS["C18"]["theorem_modules"] + ["DecProofs.Properties.C18GenTotalOrder"]
 PROPS["C11"]["theorem_modules"] = PROPS["C11"]["theorem_modules"] + ["DecProofs.Properties.C11GenScale"]
+for _pid in ("C01", "C02"):
+    PROPS[_pid]["theorem_modules"] = PROPS[_pid]["theorem_modules"] + ["DecProofs.Properties.C02GenRound"]
+PROPS["C12"]["theorem_modules"] = PROPS["C12"]["theorem_modules"] + ["DecProofs.Properties.C12GenNaN"]
+PROPS["C20"]["theorem_modules"] = PROPS["C20"]["theorem_modules"] + ["DecProofs.Properties.C20GenGlue"]
+PROPS["C16"]["theorem_modules"] = PROPS["C16"]["theorem_modules"] + ["DecProofs.Properties.C16GenMinMax"]
 for _pid in ("C13", "C12", "C09"):
     PROPS[_pid]["theorem_modules"] = PROPS[_pid]["theorem_modules"] + ["DecProofs.Properties.C13GenNoncomp"]
 for _pid in ("C01", "C04", "C09", "C10", "C11", "C13"):
